@@ -133,16 +133,17 @@ def build(case):
     sc = Scene()
     sc.case = case
     sc.points = []          # points at which species 0's density was sampled (plasma space)
-    sc.rate_calls = {}      # (element, charge) -> [(E, n, T)]
+    sc.rates = []           # Rate objects in the order the attenuator requested them (= composition order)
     sc.bad_beam_ion = []
 
     class Rate(BeamStoppingRate):
         def __init__(self, key, f):
             self.key = key
             self.f = f
+            self.calls = []
 
         def evaluate(self, e, n, t):
-            sc.rate_calls.setdefault(self.key, []).append((e, n, t))
+            self.calls.append((e, n, t))
             return self.f(e, n, t)
 
     params = {(s['element'], s['charge']): s['rate'] for s in case['species']}
@@ -154,7 +155,9 @@ def build(case):
             if beam_ion.name != case['element']:
                 sc.bad_beam_ion.append(beam_ion.name)
                 c = c * 1e3 + 1e-10
-            return Rate(key, rate_fn(c, a, b))
+            r = Rate(key, rate_fn(c, a, b))
+            sc.rates.append(r)
+            return r
 
     world = World()
     pt = case['plasma_tf']
@@ -240,9 +243,31 @@ def heads(case):
     return toks
 
 
+def gen_edge_case(rng, i):
+    """dyadic parameters: the clamp decision, the z-range tests and the sample count are hit exactly"""
+    case = gen_case(rng, mode='integer')
+    case.update(edge=True, sigma=rng.choice([0.25, 0.125, 0.5]), divx=0.0, divy=0.0, divmode='zero',
+                clamp=True, clamp_sigma=rng.choice([2.0, 1.0, 4.0, 0.5]))
+    if i % 3 == 0:
+        case['length'], case['step'] = rng.choice([(2.0, 0.5), (1.0, 0.25), (4.0, 0.125), (3.0, 1.0), (1.0, 1.0), (1.0, 2.0), (0.5, 0.5)])
+    return case
+
+
 def probe_points(rng, case, n, nodes):
     """(x, y, z, tag) for Beam.density: off-axis inside, far outside, z out of range, exactly on nodes"""
     L, sg = case['length'], case['sigma']
+    if case.get('edge'):
+        # sigma_x = sigma_y = sigma exactly (zero divergence, dyadic sigma): r = k sigma is exactly on the clamp radius
+        k = case['clamp_sigma']
+        pts = []
+        for z in (0.0, nodes[1], L):
+            r = k * sg
+            for (x, y) in ((r, 0.0), (0.0, r), (-r, 0.0), (float(np.nextafter(r, 10.0)), 0.0), (0.0, float(np.nextafter(r, 10.0))),
+                           (float(np.nextafter(r, 0.0)), 0.0), (0.0, -float(np.nextafter(r, 10.0)))):
+                pts.append((x, y, z, 'clamp-edge'))
+        for z in (-0.0, 0.0, -5e-324, 5e-324, L, float(np.nextafter(L, 10.0)), float(np.nextafter(L, 0.0))):
+            pts.append((sg / 2, -sg / 4, z, 'z-range'))
+        return pts
     tx, ty = math.tan(DEG * case['divx']), math.tan(DEG * case['divy'])
     pts = []
     for i in range(20):
@@ -285,10 +310,13 @@ def k_case(ctx, rng, case, sc, lines, expect):
 
     # --- trigger the attenuation calculation exactly once on the fresh beam
     st, v0 = call(beam.density, 0.0, 0.0, 0.0)
-    n_impl = len(sc.rate_calls.get((case['species'][0]['element'], case['species'][0]['charge']), []))
-    n_py = py_count(L, step)
+    n_impl = len(sc.rates[0].calls) if sc.rates else 0
     add('count %s %s' % (f2b(L), f2b(step)), 'count', n_impl, info=dict(length=L, step=step))
-    if st != 'ok' or n_impl != n_py or n_impl < 2:
+    keys = [r.key for r in sc.rates]
+    want_keys = [(s_['element'], s_['charge']) for s_ in case['species']]
+    add('count %s %s' % (f2b(L), f2b(step)), 'rates-requested', 'ok' if keys == want_keys and not sc.bad_beam_ion else
+        'beam_stopping_rate requested for %r (beam ion %r), composition is %r' % (keys, sc.bad_beam_ion[:1], want_keys))
+    if st != 'ok' or n_impl < 2 or len(sc.rates) != len(case['species']):
         return False
     n = n_impl
     nodes = py_nodes(L, n)
@@ -307,8 +335,8 @@ def k_case(ctx, rng, case, sc, lines, expect):
     # --- arguments received by every rate at two nodes
     for k in sorted({0, rng.randrange(n)}):
         obs = []
-        for s in case['species']:
-            obs += list(sc.rate_calls[(s['element'], s['charge'])][k])
+        for r in sc.rates:
+            obs += list(r.calls[k])
         add(' '.join(['rargs'] + common + dirs + [str(nsp)] + heads(case) + [f2b(v) for v in sample_targets(sc, [pts[k]])]),
             'rate-args', obs, tol=1e-11, info=dict(node=k))
     # --- source density
@@ -355,11 +383,336 @@ def k_case(ctx, rng, case, sc, lines, expect):
     return True
 
 
+# ----------------------------------------------------------------------------------------------------------------
+# S: model-free oracles on the implementation
+# ----------------------------------------------------------------------------------------------------------------
+_GL8 = np.polynomial.legendre.leggauss(8)
+_GL32 = np.polynomial.legendre.leggauss(32)
+
+
+def physics_ref(case, sc):
+    """speed and particle rate straight from the documentation: v = sqrt(2 E e / amu), R = P / (E m e)"""
+    v = math.sqrt(2.0 * case['energy'] * elementary_charge / atomic_mass)
+    rate = case['power'] / (case['energy'] * sc.mass * elementary_charge)
+    return v, rate
+
+
+def stopping_ref(case, sc, z, v):
+    """documented S(z) = sum_i Z_i n_i S_i(E_int,i, sum_j Z_j^2 n_j / Z_i, T_i) at the axis point z (beam space)"""
+    p = axis_point(sc, z)
+    dn = math.sqrt(sum(c * c for c in sc.dir))
+    bv = [c / dn * v for c in sc.dir]
+    vals = []
+    for sp in case['species']:
+        vals.append((sp['charge'], scalar_profile(sp['dens'])(*p), scalar_profile(sp['temp'])(*p),
+                     vector_profile(sp['vel'])(*p), rate_fn(*sp['rate'])))
+    zsum = sum(Z * Z * n for Z, n, _, _, _ in vals)
+    S = 0.0
+    for Z, n, T, u, rf in vals:
+        if Z == 0:
+            continue                      # a neutral contributes Z n S_i = 0
+        dv2 = sum((a - b) ** 2 for a, b in zip(bv, u))
+        e_int = dv2 * atomic_mass / (2.0 * elementary_charge)
+        S += Z * n * rf(e_int, zsum / Z, T)
+    return S
+
+
+def fine_integral(case, sc, nodes, v, sub=3):
+    """int_0^{z_k} S dz at every node by composite 8-point Gauss-Legendre (sub panels per code interval) and an estimate of
+    max|S''| per interval (central differences on 8 sub-steps) for the trapezoid error bound"""
+    I = [0.0]
+    M2 = []
+    M1 = []
+    Smax = []
+    for a, b in zip(nodes[:-1], nodes[1:]):
+        tot = 0.0
+        w = (b - a) / sub
+        for j in range(sub):
+            lo = a + j * w
+            tot += sum(wi * stopping_ref(case, sc, lo + 0.5 * w * (xi + 1.0), v) for xi, wi in zip(*_GL8)) * 0.5 * w
+        I.append(I[-1] + tot)
+        m = 16
+        d = (b - a) / m
+        ss = [stopping_ref(case, sc, a + (i - 1) * d, v) for i in range(m + 3)]
+        M2.append(max(abs(ss[i - 1] - 2 * ss[i] + ss[i + 1]) for i in range(1, m + 2)) / (d * d))
+        M1.append(max(abs(ss[i + 1] - ss[i]) for i in range(m + 2)) / d)
+        Smax.append(max(abs(t) for t in ss))
+    return I, M2, M1, Smax
+
+
+def flux_impl(case, sc, z, v):
+    """v * integral of Beam.density over the cross-section at z.  clamp off: tensor trapezoid, h = sigma/2 over +-9 sigma
+    (spectrally accurate for a Gaussian of any nearby width); clamp on: polar Gauss-Legendre over the clamp disc."""
+    sx, sy = sigmas_ref(case, z)
+    beam = sc.beam
+    if not case['clamp']:
+        ts = [0.5 * i for i in range(-18, 19)]
+        tot = 0.0
+        for a in ts:
+            x = a * sx
+            for b in ts:
+                tot += beam.density(x, b * sy, z)
+        return tot * (0.5 * sx) * (0.5 * sy) * v
+    k = case['clamp_sigma']
+    tot = 0.0
+    nth = 12
+    for xi, wi in zip(*_GL32):
+        r = 0.5 * k * (xi + 1.0)
+        ring = 0.0
+        for j in range(nth):
+            t = 2 * math.pi * (j + 0.37) / nth
+            ring += beam.density(r * sx * math.cos(t), r * sy * math.sin(t), z)
+        tot += wi * 0.5 * k * r * ring * (2 * math.pi / nth)
+    return tot * sx * sy * v
+
+
+def smooth(case):
+    return all(sp['dens']['cut'] is None and sp['temp']['cut'] is None for sp in case['species'])
+
+
+def sig(oracle, case):
+    return 'C04:%s:clamp=%s:divergence=%s' % (oracle, 'on' if case['clamp'] else 'off', case['divmode'])
+
+
+def s_case(ctx, rng, case, sc, deep=False):
+    """returns list of (signature, description) of property failures on this configuration"""
+    fails = []
+    beam, att = sc.beam, sc.att
+    L = case['length']
+    nodes, n = sc.nodes, len(sc.nodes)
+    v, rate = physics_ref(case, sc)
+    has_nan = any(not math.isfinite(t) for t in sc.knots)
+    neutral = any(sp['charge'] == 0 for sp in case['species'])
+    if has_nan:
+        # 0 * S_i(E, nan|inf, T) for a neutral species where all ion densities vanish: outside the documented formula
+        # (defined for ions); recorded as an observation, not decided here
+        ctx.count('S-skipped:nan-line-density(neutral species, zero ion density)' if neutral else 'S-nan-without-neutral')
+        if not neutral:
+            fails.append((sig('line-density-nan', case), 'line density is NaN without a neutral species in the composition'))
+        return fails
+    ctx.count('S:cases')
+    # ---- S2: documented discretisation at the nodes, restated with numpy from the documented S
+    S_nodes = [stopping_ref(case, sc, z, v) for z in nodes]
+    cum = np.concatenate(([0.0], np.cumsum(np.diff(nodes) * (np.array(S_nodes[1:]) + np.array(S_nodes[:-1])) / 2.0)))
+    expect_nodes = rate / v * np.exp(-cum / v)
+    for k in range(n - 1):
+        if not close(sc.knots[k], expect_nodes[k], 1e-9, 1e-300):
+            fails.append((sig('line-density-at-node', case), 'node %d z=%r: line density %r, documented rate/v*exp(-cumtrapz(S)/v) = %r'
+                          % (k, nodes[k], sc.knots[k], float(expect_nodes[k]))))
+            break
+    # ---- S1: conservation against the exact integral (smooth profiles: with the trapezoid / interpolation error bounds)
+    if smooth(case):
+        I, M2, M1, Smax = fine_integral(case, sc, nodes, v)
+        errI = [0.0]
+        for j in range(n - 1):
+            h = nodes[j + 1] - nodes[j]
+            errI.append(errI[-1] + 2.0 * h ** 3 / 12.0 * M2[j])
+        no_stop = all(sp['rate'][0] == 0.0 for sp in case['species'])
+        zs = [(0, None), (n - 1, None), (rng.randrange(n), None), (rng.randrange(n - 1), rng.uniform(0.2, 0.8))]
+        if deep:
+            zs += [(k, None) for k in range(n)] + [(k, 0.5) for k in range(n - 1)]
+        frac = 1.0 - math.exp(-0.5 * case['clamp_sigma'] ** 2) if case['clamp'] else 1.0
+        for k, t in zs:
+            if t is None:
+                z, Iz, tol = nodes[k], I[k], errI[k] / v
+                kl = min(k, n - 2)
+            else:
+                h = nodes[k + 1] - nodes[k]
+                z = nodes[k] + t * h
+                # exact law between the nodes: fine rule on [z_k, z]
+                Iz = I[k] + sum(wi * stopping_ref(case, sc, nodes[k] + 0.5 * t * h * (xi + 1.0), v) for xi, wi in zip(*_GL8)) * 0.5 * t * h
+                # linear interpolation of g = exp(-I/v): |error| <= h^2/8 max|g''|, g'' = g ((S/v)^2 - S'/v)
+                tol = errI[k + 1] / v + 2.0 * h * h / 8.0 * ((Smax[k] / v) ** 2 + M1[k] / v)
+                kl = k
+            want = rate * math.exp(-Iz / v) * frac
+            got = flux_impl(case, sc, z, v)
+            if tol > 0.5:
+                ctx.count('S:flux-point-skipped(step too coarse for a meaningful error bound)')
+                continue
+            rel = (1e-12 if no_stop else 1e-9) + math.expm1(tol)
+            ctx.count('S:flux-bound<=1e-%d' % min(9, max(0, int(-math.log10(rel)))))
+            floor = 1e-11 * rate * math.exp(-I[kl] / v)        # cancellation in raysect's linear1d: ~ulp of the left knot
+            ctx.count('S:flux-points')
+            if not (abs(got - want) <= rel * max(abs(want), abs(got)) + floor):
+                fails.append((sig('conservation', case),
+                              'z=%r: v*cross-section integral of Beam.density = %r, P/(E m e)*exp(-int_0^z S/v)%s = %r (allowed relative error %.3g from the step)'
+                              % (z, got, '*(1-exp(-k^2/2))' if case['clamp'] else '', want, rel)))
+                break
+    else:
+        # profiles with a cut-off: conservation against the discretised law (the trapezoid bound needs S'' bounded)
+        frac = 1.0 - math.exp(-0.5 * case['clamp_sigma'] ** 2) if case['clamp'] else 1.0
+        for k in sorted({0, rng.randrange(n - 1)}):
+            got = flux_impl(case, sc, nodes[k], v)
+            want = float(expect_nodes[k]) * v * frac
+            ctx.count('S:flux-points')
+            if not close(got, want, 1e-9, 1e-300):
+                fails.append((sig('conservation-discretised', case), 'node %d z=%r: flux %r, discretised law %r' % (k, nodes[k], got, want)))
+    # ---- S3: on-axis density never increases
+    zz = sorted(set([rng.uniform(0, L) for _ in range(60 if not deep else 400)] + list(nodes) +
+                    [float(np.nextafter(t, -1.0)) for t in nodes[1:]] + [float(np.nextafter(t, 10.0)) for t in nodes[:-1]]))
+    prev = None
+    for z in zz:
+        d = beam.density(0.0, 0.0, z)
+        sx, sy = sigmas_ref(case, z)
+        # rounding of raysect's slope*(z-z_k)+f_k is ~ulp(f_k) of the bin's left knot (also just left of the next knot)
+        slack = 1e-13 * max(sc.left_knot(z), sc.left_knot(prev[0]) if prev else 0.0) / (2 * math.pi * sx * sy)
+        if prev is not None and d > prev[1] * (1 + 1e-13) + slack:
+            fails.append((sig('on-axis-monotone', case), 'on-axis density rises from %r at z=%r to %r at z=%r' % (prev[1], prev[0], d, z)))
+            break
+        if d < -slack:
+            ctx.count('S:observation:negative-density-by-rounding')
+        prev = (z, d)
+    ctx.count('S:monotone-points', len(zz))
+    # ---- S4: zero outside
+    sg = case['sigma']
+    for z in (-5e-324, -1e-9, -1.0, float(np.nextafter(L, 10.0)), L + 1.0):
+        for (x, y) in ((0.0, 0.0), (sg / 3, -sg / 2)):
+            d = beam.density(x, y, z)
+            if d != 0.0:
+                fails.append((sig('zero-outside-z-range', case), 'Beam.density(%r, %r, %r) = %r for beam length %r' % (x, y, z, d, L)))
+    if case['clamp']:
+        k = case['clamp_sigma']
+        for z in (0.0, rng.uniform(0, L), L):
+            sx, sy = sigmas_ref(case, z)
+            t = rng.uniform(0, 6.28)
+            for f in (1 + 1e-6, 1.5, 3.0):
+                d = beam.density(f * k * sx * math.cos(t), f * k * sy * math.sin(t), z)
+                if d != 0.0:
+                    fails.append((sig('zero-outside-clamp-radius', case), 'clamp on, r/sigma = %r k: density %r at z=%r' % (f, d, z)))
+            x, y = (1 - 1e-6) * k * sx * math.cos(t), (1 - 1e-6) * k * sy * math.sin(t)
+            d = beam.density(x, y, z)
+            want = att._density(z) * gauss_ref(case, x, y, z)
+            if not close(d, want, 1e-9, 1e-300):
+                fails.append((sig('inside-clamp-radius', case), 'clamp on, just inside the radius: density %r, line density x Gaussian %r' % (d, want)))
+    ctx.count('S:zero-outside-points', 10)
+    # ---- S5: direction: unit, axis behind the source, streamlines keep x/sigma_x, y/sigma_y
+    for i in range(4):
+        z = rng.choice([rng.uniform(0, L), -rng.uniform(0, 1), 0.0])
+        x, y = rng.uniform(-3 * sg, 3 * sg), rng.uniform(-3 * sg, 3 * sg)
+        d = beam.direction(x, y, z)
+        nrm = math.sqrt(d.x * d.x + d.y * d.y + d.z * d.z)
+        if abs(nrm - 1.0) > 1e-14:
+            fails.append((sig('direction-unit', case), 'direction(%r,%r,%r) has length %r' % (x, y, z, nrm)))
+        if z <= 0 and (d.x, d.y, d.z) != (0.0, 0.0, 1.0):
+            fails.append((sig('direction-behind-source', case), 'direction(%r,%r,%r) = %r' % (x, y, z, (d.x, d.y, d.z))))
+    z0, z1 = L * 0.02, L
+    x, y = rng.uniform(-2 * sg, 2 * sg), rng.uniform(-2 * sg, 2 * sg)
+    sx0, sy0 = sigmas_ref(case, z0)
+    cx, cy = x / sx0, y / sy0
+    # RK4 with steps well below the scale length sigma/tan(alpha) of the field
+    tmax = max(math.tan(math.radians(case['divx'])), math.tan(math.radians(case['divy'])))
+    steps = int(min(6000, max(64, 20.0 * (z1 - z0) * tmax / sg))) * (4 if deep else 1)
+    hh = (z1 - z0) / steps
+
+    def slope(xx, yy, zz_):
+        dd = beam.direction(xx, yy, zz_)
+        return dd.x / dd.z, dd.y / dd.z
+    z = z0
+    for i in range(steps):
+        k1 = slope(x, y, z)
+        k2 = slope(x + 0.5 * hh * k1[0], y + 0.5 * hh * k1[1], z + 0.5 * hh)
+        k3 = slope(x + 0.5 * hh * k2[0], y + 0.5 * hh * k2[1], z + 0.5 * hh)
+        k4 = slope(x + hh * k3[0], y + hh * k3[1], z + hh)
+        x += hh / 6 * (k1[0] + 2 * k2[0] + 2 * k3[0] + k4[0])
+        y += hh / 6 * (k1[1] + 2 * k2[1] + 2 * k3[1] + k4[1])
+        z += hh
+    sx1, sy1 = sigmas_ref(case, z1)
+    ctx.count('S:streamlines')
+    if abs(x / sx1 - cx) > 1e-7 * (1 + abs(cx)) or abs(y / sy1 - cy) > 1e-7 * (1 + abs(cy)):
+        fails.append((sig('streamline', case), 'streamline from z=%r to z=%r: x/sigma_x %r -> %r, y/sigma_y %r -> %r'
+                      % (z0, z1, cx, x / sx1, cy, y / sy1)))
+    return fails
+
+
+class _NullCtx:
+    """counter sink for re-evaluations during shrinking"""
+    traces = 0
+
+    def count(self, *a, **k):
+        pass
+
+
+def evaluate(rng, case, deep=True):
+    """build a fresh scene for `case`, observe once, run all oracles; returns [(signature, description)]"""
+    sc = build(case)
+    if not k_case(_NullCtx(), rng, case, sc, [], []):
+        return [('C04:attenuation-not-computed', 'Beam.density raised or no samples were taken')]
+    return s_case(_NullCtx(), rng, case, sc, deep=deep)
+
+
+def _simplifications(case):
+    """candidate simpler configurations (each a deep copy with one aspect simplified)"""
+    def cp():
+        return json.loads(json.dumps(case))
+    if len(case['species']) > 1:
+        for i in range(len(case['species'])):
+            c = cp(); del c['species'][i]
+            if any(sp['charge'] > 0 for sp in c['species']):
+                yield c
+    for i, sp in enumerate(case['species']):
+        for key in ('dens', 'temp'):
+            if sp[key]['b'] != 0.0 or sp[key]['w'] is not None or sp[key]['cut'] is not None:
+                c = cp(); c['species'][i][key].update(b=0.0, w=None, cut=None, k=[0.0, 0.0, 0.0], phi=0.0); c['kind'] = 'simplified'
+                yield c
+        if any(sp['vel']['g']) or any(sp['vel']['v0']):
+            c = cp(); c['species'][i]['vel'] = dict(v0=[0.0] * 3, g=[0.0] * 3)
+            yield c
+        if sp['rate'][1:] != [0.0, 0.0]:
+            c = cp(); c['species'][i]['rate'][1:] = [0.0, 0.0]
+            yield c
+    for key, val in (('beam_tf', [0.0] * 6), ('plasma_tf', [0.0] * 6), ('nested', False), ('clamp', False),
+                     ('energy', 5e4), ('power', 1e6), ('element', 'deuterium'), ('sigma', 0.125), ('length', 2.0),
+                     ('clamp_sigma', 5.0)):
+        if case[key] != val:
+            c = cp(); c[key] = val
+            yield c
+    if (case['divx'], case['divy']) != (0.0, 0.0):
+        c = cp(); c.update(divx=0.0, divy=0.0, divmode='zero')
+        yield c
+    if case['step'] != case['length'] / 8:
+        c = cp(); c['step'] = c['length'] / 8
+        yield c
+
+
+def shrink(rng, case, signature, budget=60):
+    """greedy simplification keeping a failure of the same oracle"""
+    oracle = signature.split(':')[1]
+    cur = case
+    why = None
+    sg_ = signature
+    progress = True
+    while progress and budget > 0:
+        progress = False
+        for c in _simplifications(cur):
+            budget -= 1
+            if budget <= 0:
+                break
+            try:
+                fs_ = evaluate(rng, c)
+            except Exception:       # noqa
+                continue
+            hit = [f for f in fs_ if f[0].split(':')[1] == oracle]
+            if hit:
+                cur, sg_, why, progress = c, hit[0][0], hit[0][1], True
+                break
+    return cur, sg_, why
+
+
+def report(ctx, rng, case, sg_, why):
+    if sg_ in ctx.known or sg_ in [f['signature'] for f in ctx.failing]:
+        ctx.fail(sg_, why, dict(case=case))
+        return
+    small, sg2, why2 = shrink(rng, case, sg_)
+    ctx.fail(sg2, why2 or why, dict(case=small, original_case=case, original_signature=sg_, original_description=why))
+
+
 def compare(ctx, lines, expect, outs):
     for ln, e, o in zip(lines, expect, outs):
         obs = e['obs']
         if e['kind'] == 'count':
             agree = o == str(obs)
+        elif e['kind'] == 'rates-requested':
+            agree = obs == 'ok'
         elif e['kind'] == 'att-table-size':
             agree = len(o.split()) == obs
         elif isinstance(obs, list):
@@ -387,6 +740,16 @@ def compare(ctx, lines, expect, outs):
             yield e
 
 
+def load_corpus():
+    import glob
+    import os
+    from harness.vlib.util import VERIF
+    out = []
+    for f in sorted(glob.glob(os.path.join(VERIF, 'corpus', 'C04', '*.json'))):
+        out.append(json.load(open(f))['case'])
+    return out
+
+
 def run(ctx):
     ctx.rule = ('random fresh beam/plasma configurations: beam energy, power, element, sigma, divergence (0 / equal / unequal / one zero), '
                 'length, attenuator step (many / few samples, L < step, L/step integer), clamp on/off and radius, beam and plasma '
@@ -401,21 +764,63 @@ def run(ctx):
 
     rng = ctx.rng
     lines, expect = [], []
-    ncases = ctx.n(120, 1500)
-    for i in range(ncases):
-        case = gen_case(rng)
+    corpus = load_corpus()
+    ncases = ctx.n(300, 4000)
+    nedge = ctx.n(30, 200)
+    for i in range(len(corpus) + ncases + nedge):
+        if i < len(corpus):
+            case = corpus[i]
+            ctx.count('corpus')
+        else:
+            case = gen_case(rng) if i < len(corpus) + ncases else gen_edge_case(rng, i)
         sc = build(case)
         ok = k_case(ctx, rng, case, sc, lines, expect)
+        if ok:
+            for sg_, why in s_case(ctx, rng, case, sc):
+                report(ctx, rng, case, sg_, why)
         ctx.count('case:' + case['kind']); ctx.count('div:' + case['divmode']); ctx.count('step:' + case['stepmode'])
         ctx.count('clamp:%s' % case['clamp']); ctx.count('species:%d' % len(case['species']))
         ctx.case(key=json.dumps(case, sort_keys=True) if ok else None,
                  sample=dict(case=case) if i < 2 else None)
     outs = ctx.driver(lines)
     bad = list(compare(ctx, lines, expect, outs))
+    # a broken correspondence: search the implementation on the disagreeing configurations, in depth
+    seen = set()
+    for e in bad:
+        key = json.dumps(e['case'], sort_keys=True)
+        if key in seen or len(seen) >= 10:
+            continue
+        seen.add(key)
+        sc = build(e['case'])
+        l2, e2 = [], []
+        if k_case(ctx, rng, e['case'], sc, l2, e2):
+            for sg_, why in s_case(ctx, rng, e['case'], sc, deep=True):
+                report(ctx, rng, e['case'], sg_, why)
 
 
 def replay(ctx, path):
+    """re-execute a stored configuration against the real code: K comparison + all oracles in depth"""
     r = json.load(open(path))
-    print(json.dumps(r, indent=1)[:3000])
-    run(ctx)
+    cases = []
+    if isinstance(r.get('replay'), dict) and 'case' in r['replay']:
+        cases.append(r['replay']['case'])
+    for b in r.get('broken', []):
+        d = b.get('detail')
+        if isinstance(d, dict) and isinstance(d.get('case'), dict) and d['case'] not in cases:
+            cases.append(d['case'])
+    print('replaying %d configuration(s) from %s' % (len(cases), path))
+    ctx.rule = 'replay of stored configurations'
+    ctx.lean_check(['Cherab.Props.C04'], 'Cherab/Audit/C04.lean')
+    rng = ctx.rng
+    lines, expect = [], []
+    for case in cases[:20]:
+        sc = build(case)
+        ok = k_case(ctx, rng, case, sc, lines, expect)
+        ctx.case(key=json.dumps(case, sort_keys=True), sample=dict(case=case))
+        if ok:
+            for sg_, why in s_case(ctx, rng, case, sc, deep=True):
+                ctx.fail(sg_, why, dict(case=case))
+    if lines:
+        outs = ctx.driver(lines)
+        list(compare(ctx, lines, expect, outs))
     return ctx.finish()
